@@ -87,6 +87,7 @@ class Summary:
     binds: dict = field(default_factory=dict)
     assume: list = field(default_factory=list)
     note: str = ""
+    raises_if: Optional[str] = None     # the statement raises exactly under this condition (evaluated before the binds)
 
 
 @dataclass
@@ -178,6 +179,7 @@ class Contract:
     branch_iff: dict = field(default_factory=dict)  # "if#k" -> Clause: branch taken exactly under the condition
     lemmas_at: dict = field(default_factory=dict)   # "entry" / "post" / "after ..." -> ["lemma(args)"]
     ghost_results: dict = field(default_factory=dict)  # ghost locals mentioned by ensures: name -> T (existential for callers)
+    no_raise: bool = False                          # every `raise` must be unreachable under the pre-condition (completeness)
     assigns: Optional[list] = None                  # attribute targets the method may assign (frame); None = unchecked
     fields: dict = field(default_factory=dict)      # object state at entry: "self.__x" -> T  (P-subset methods)
     block: Optional[tuple] = None       # (first key, last key): the contract is a Hoare triple on this contiguous block of
